@@ -1,6 +1,9 @@
 package corr
 
 import (
+	"github.com/moov-io/iso3166"
+	"github.com/moov-io/iso4217"
+
 	"errors"
 	"fmt"
 	"reflect"
@@ -133,7 +136,7 @@ func flatten(v reflect.Value, path string, toks *[]string, ok *bool, ext map[str
 }
 
 // records collects the addressable record structs of the batch (for field mutations)
-func batchRecords(b ach.Batcher) []reflect.Value {
+func batchRecordsOf(b any) []reflect.Value {
 	pool := map[string][]reflect.Value{}
 	harvest(reflect.ValueOf(b), pool, map[string]bool{}, 0)
 	var names []string
@@ -181,23 +184,57 @@ func mutateRecord(cr *gen.Rand, rec reflect.Value) string {
 	return rv.Type().Name() + "." + rv.Type().Field(i).Name
 }
 
-func batchvalidateOne(cr *gen.Rand, src ach.Batcher, emit func(op, impl, class string)) {
+func batchvalidateOne(cr *gen.Rand, src any, emit func(op, impl, class string)) {
 	// a private deep copy through JSON would re-tabulate: re-generate instead (the caller hands a fresh batch)
 	b := src
-	bb := ach.VerifBatchOf(b)
-	sec := ""
-	if h := b.GetHeader(); h != nil {
-		sec = h.StandardEntryClassCode
+	var bb *ach.Batch
+	sec := "IAT"
+	if bt, ok := b.(ach.Batcher); ok {
+		bb = ach.VerifBatchOf(bt)
+		if h := bt.GetHeader(); h != nil {
+			sec = h.StandardEntryClassCode
+		}
 	}
+	iat, _ := b.(*ach.IATBatch)
 	var mutated []string
 	nmut := gen.Pick(cr, []int{0, 0, 1, 1, 1, 2, 3})
 	for m := 0; m < nmut; m++ {
 		switch k := cr.Intn(10); {
 		case k < 7:
-			recs := batchRecords(b)
+			recs := batchRecordsOf(b)
 			if len(recs) > 0 {
 				mutated = append(mutated, mutateRecord(cr, recs[cr.Intn(len(recs))]))
 			}
+		case k == 7 && iat != nil && len(iat.Entries) > 1:
+			i, j := cr.Intn(len(iat.Entries)), cr.Intn(len(iat.Entries))
+			if cr.Bool() {
+				iat.Entries[i], iat.Entries[j] = iat.Entries[j], iat.Entries[i]
+				mutated = append(mutated, "swap-entries")
+			} else {
+				iat.Entries = append(iat.Entries[:i:i], iat.Entries[i+1:]...)
+				mutated = append(mutated, "drop-entry")
+			}
+		case k == 8 && iat != nil && len(iat.Entries) > 0:
+			e := iat.Entries[cr.Intn(len(iat.Entries))]
+			switch cr.Intn(6) {
+			case 0:
+				e.Addenda10 = nil
+			case 1:
+				e.Addenda17 = nil
+			case 2:
+				e.Addenda99 = nil
+			case 3:
+				e.Addenda98 = nil
+			case 4:
+				e.Addenda16 = nil
+			case 5:
+				e.Addenda99 = ach.NewAddenda99()
+			}
+			mutated = append(mutated, "addenda-pointer")
+		case k == 9 && iat != nil && len(iat.Entries) > 0:
+			e := iat.Entries[cr.Intn(len(iat.Entries))]
+			e.Category = gen.Pick(cr, []string{ach.CategoryForward, ach.CategoryReturn, ach.CategoryNOC, ""})
+			mutated = append(mutated, "category")
 		case k == 7 && bb != nil && len(bb.Entries) > 1:
 			// swap two entries / drop one
 			i, j := cr.Intn(len(bb.Entries)), cr.Intn(len(bb.Entries))
@@ -264,12 +301,32 @@ func batchvalidateOne(cr *gen.Rand, src ach.Batcher, emit func(op, impl, class s
 	var toks []string
 	ok := true
 	flatten(reflect.ValueOf(b).Elem(), "", &toks, &ok, nil)
+	if iat != nil && iat.Header != nil { // third-party predicates the IAT batch header validator consults
+		ext := map[string]bool{}
+		ext["iso3166.Valid:"+iat.Header.ISODestinationCountryCode] = iso3166.Valid(iat.Header.ISODestinationCountryCode)
+		for _, cur := range []string{iat.Header.ISOOriginatingCurrencyCode, iat.Header.ISODestinationCurrencyCode} {
+			_, found := iso4217.Lookup(cur)
+			ext["iso4217.Lookup:"+cur] = found
+		}
+		var eks []string
+		for k := range ext {
+			eks = append(eks, k)
+		}
+		sort.Strings(eks)
+		for _, k := range eks {
+			v := 0
+			if ext[k] {
+				v = 1
+			}
+			toks = append(toks, fmt.Sprintf("@%s=%d", Hex(k), v))
+		}
+	}
 	tname := reflect.ValueOf(b).Elem().Type().Name()
 	if !ok {
 		return
 	}
 	res := Safe(func() string {
-		err := b.Validate()
+		err := b.(interface{ Validate() error }).Validate()
 		if err == nil {
 			return "accept"
 		}
@@ -307,13 +364,25 @@ func init() {
 		for i := 0; made < n && i < 20*n; i++ {
 			cr := r.Fork(uint64(i))
 			sec := secs[i%len(secs)]
-			if sec == ach.IAT {
-				continue
+			if i%6 == 5 {
+				sec = ach.IAT // its own batch type and validator: a larger share than one in 23
 			}
+
 			o := gen.Opts{SECs: []string{sec}, Categories: gen.AllCategories(), MinBatches: 1, MaxBatches: 1, MaxEntries: 3, MaxAddenda: 2,
 				NonASCII: i%7 == 3, FullWidth: i%5 == 4, PresetTraces: i%2 == 0, Offset: i%6 == 5}
 			f, err := gen.File(cr.Fork(1), o)
-			if err != nil || f == nil || len(f.Batches) == 0 {
+			if err != nil || f == nil {
+				continue
+			}
+			if sec == ach.IAT {
+				if len(f.IATBatches) == 0 {
+					continue
+				}
+				batchvalidateOne(cr.Fork(2), &f.IATBatches[0], emit)
+				made++
+				continue
+			}
+			if len(f.Batches) == 0 {
 				continue
 			}
 			batchvalidateOne(cr.Fork(2), f.Batches[0], emit)
